@@ -1,5 +1,5 @@
 (* Every event of the hybrid-buffer LTS preserves the invariant (Proofs/BufferInv.v). *)
-From SV Require Import Model.Common Model.FileWrite Model.Buffer Proofs.CommonFacts Proofs.FileWriteProofs Proofs.BufferInv.
+From SV Require Import Model.Common Model.FileWrite Model.Buffer Spec.BufferSpec Proofs.CommonFacts Proofs.FileWriteProofs Proofs.BufferInv.
 From Coq Require Import Lia ZifyBool ZifyN ZifyNat Sorting.Sorted.
 Ltac Zify.zify_post_hook ::= Z.div_mod_to_equations.
 
@@ -1037,6 +1037,7 @@ Proof.
     + intros x d e Hx Hr Hg. rewrite Eever in Hx. apply in_app_or in Hx. destruct Hx as [Hx|[Hx|[]]].
       * eapply (i_rec_ever _ _ _ Hinv); eassumption.
       * inversion Hx; subst. contradiction.
+    + apply (i_rec_def _ _ _ Hinv).
 Qed.
 
 
